@@ -910,6 +910,30 @@ def pure_eval(I, fn):
     return r
 
 
+def _dict_from_keys(I, e, inner, g, dom, arr, n, xb, src_dict):
+    st = I.st
+    st.pc.append(z3.Select(dom, xb))
+    npc = len(st.pc)
+    try:
+        inner.vars[g.target.id] = xb
+        if src_dict is not None:
+            st.dict_read(src_dict, xb)
+        val = pure_eval(I, lambda: I.lift(I.ev(e.value, inner)))
+        extra = st.pc[npc:]
+    finally:
+        del st.pc[npc - 1:]
+    if extra:
+        st.assume(forall([xb], z3.Implies(z3.Select(dom, xb), z3.And(extra))))
+    k = z3.Const("k!dc", V)
+    d = st.new_dict()
+    rid = V.id(d)
+    st.h.ddom = z3.Store(st.h.ddom, rid, dom)
+    st.h.dval = z3.Store(st.h.dval, rid, z3.Lambda([k], z3.substitute(val, (xb, k))))
+    st.h.dlen = z3.Store(st.h.dlen, rid, n)
+    st.h.dord = z3.Store(st.h.dord, rid, arr)
+    return d
+
+
 def _symbolic_comp(I, e, env, inner, kind, it):
     """single-generator comprehension over a symbolic iterable"""
     st = I.st
@@ -966,6 +990,12 @@ def _symbolic_comp(I, e, env, inner, kind, it):
             # any/all over a predicate of the elements: keep as a predicate view
             return HView("setpred", (setlike_src, xb, c, elt))
         raise OutsideSubset("comprehension maps a set-like source")
+    if kind == "dict" and not g.ifs and isinstance(g.target, ast.Name) and isinstance(e.key, ast.Name) and e.key.id == g.target.id:
+        src = it.base if isinstance(it, HView) and it.kind == "keys" else it
+        if is_v(src) and I.tag(src) == "ref" and I.kind(src) == K_DICT:
+            # {x: f(x) for x in d}: same keys, in d's own (insertion) order
+            rid = V.id(src)
+            return _dict_from_keys(I, e, inner, g, z3.Select(st.h.ddom, rid), z3.Select(st.h.dord, rid), z3.Select(st.h.dlen, rid), xb, src)
     # sequence source: element-wise map (no filter)
     seq = iterate_seq(I, it)
     if isinstance(it, HView) and it.kind == "range":
@@ -1030,6 +1060,13 @@ def _symbolic_comp(I, e, env, inner, kind, it):
                                             z3.And(src(j) >= 0, src(j) < seq.n, sub(c, seq.at(src(j))),
                                                    out.at(j) == sub(elt, seq.at(src(j))))), [out.at(j)]))
         return st.new_list(out)
+    if kind == "dict" and not g.ifs and isinstance(g.target, ast.Name) and isinstance(e.key, ast.Name) and e.key.id == g.target.id:
+        # {x: f(x) for x in sorted(<set-like>)}: the keys are the (pairwise distinct) elements of the sorted source, inserted in
+        # that order; the values are a function of the key
+        arr = z3.simplify(seq.arr)
+        if z3.is_app(arr) and arr.decl().name() == "SortedArr":
+            return _dict_from_keys(I, e, inner, g, arr.arg(0), arr, seq.n, xb, None)
+        raise OutsideSubset("dict comprehension over a symbolic sequence that is not sorted(<set-like>)")
     if kind == "gen" and g.ifs:
         I.assign_target(g.target, xb, inner)
 
